@@ -210,6 +210,10 @@ func init() {
 			x.cfg.MakeSplit = int(intArg(args[1]))
 			return ret1(st, nil)
 		},
+		"MergeAll": func(x *Exec, st *State, fr *Frame, args []Value, site ssa.Instruction) []Result {
+			x.cfg.MergeAll = true
+			return ret1(st, nil)
+		},
 		"NoMerge": func(x *Exec, st *State, fr *Frame, args []Value, site ssa.Instruction) []Result {
 			x.cfg.NoMerge = true
 			return ret1(st, nil)
@@ -273,6 +277,84 @@ func init() {
 		"Note": func(x *Exec, st *State, fr *Frame, args []Value, site ssa.Instruction) []Result {
 			x.assumptions[strArg(args[1])] = true
 			return ret1(st, nil)
+		},
+		// ---- token-stream reader oracle (see DESIGN: byte stream abstraction)
+		"TokByte": func(x *Exec, st *State, fr *Frame, args []Value, site ssa.Instruction) []Result {
+			tf := x.tf
+			if st.ghost["tok:eof"] != nil {
+				return ret1(st, &StructV{F: []Value{tf.BV(0, 8), tf.False}})
+			}
+			s2 := st.clone()
+			b := x.newInput(st, "tokb", SBV(8))
+			st.trace = append(st.trace, "B:"+b.Name)
+			s2.trace = append(s2.trace, "E")
+			s2.ghost["tok:eof"] = tf.True
+			return []Result{{St: st, Val: &StructV{F: []Value{b, tf.True}}}, {St: s2, Val: &StructV{F: []Value{tf.BV(0, 8), tf.False}}}}
+		},
+		"TokRead": func(x *Exec, st *State, fr *Frame, args []Value, site ssa.Instruction) []Result {
+			tf := x.tf
+			p := args[1].(*SliceV)
+			if st.ghost["tok:eof"] != nil || p.Len == 0 {
+				return ret1(st, tf.BV(0, 64))
+			}
+			var out []Result
+			// eof
+			s2 := st.clone()
+			s2.trace = append(s2.trace, "E")
+			s2.ghost["tok:eof"] = tf.True
+			out = append(out, Result{St: s2, Val: tf.BV(0, 64)})
+			// short read (first byte only)
+			if p.Len > 1 {
+				s3 := st.clone()
+				b := x.newInput(s3, "tokb", SBV(8))
+				arr := x.sliceArr(s3, p)
+				f := append([]Value(nil), arr.F...)
+				f[p.Off] = b
+				x.setSliceArr(s3, p, &StructV{F: f})
+				s3.trace = append(s3.trace, "B:"+b.Name, "E")
+				s3.ghost["tok:eof"] = tf.True
+				out = append(out, Result{St: s3, Val: tf.BV(^uint64(0), 64)})
+			}
+			// full read
+			arr := x.sliceArr(st, p)
+			f := append([]Value(nil), arr.F...)
+			for i := 0; i < p.Len; i++ {
+				b := x.newInput(st, "tokb", SBV(8))
+				f[p.Off+i] = b
+				st.trace = append(st.trace, "B:"+b.Name)
+			}
+			x.setSliceArr(st, p, &StructV{F: f})
+			out = append(out, Result{St: st, Val: tf.BV(uint64(p.Len), 64)})
+			return out
+		},
+		"TokUvarint": func(x *Exec, st *State, fr *Frame, args []Value, site ssa.Instruction) []Result {
+			tf := x.tf
+			mk := func(s *State, v *Term, code uint64) Result {
+				return Result{St: s, Val: &StructV{F: []Value{v, tf.BV(code, 64)}}}
+			}
+			if st.ghost["tok:eof"] != nil {
+				return []Result{mk(st, tf.BV(0, 64), 1)}
+			}
+			var out []Result
+			s1 := st.clone()
+			s1.trace = append(s1.trace, "E")
+			s1.ghost["tok:eof"] = tf.True
+			out = append(out, mk(s1, tf.BV(0, 64), 1))
+			s2 := st.clone()
+			s2.trace = append(s2.trace, "X:80", "E")
+			s2.ghost["tok:eof"] = tf.True
+			out = append(out, mk(s2, tf.BV(0, 64), 2))
+			s3 := st.clone()
+			s3.trace = append(s3.trace, "X:ffffffffffffffffffff", "E")
+			s3.ghost["tok:eof"] = tf.True
+			out = append(out, mk(s3, tf.BV(0, 64), 3))
+			v := x.newInput(st, "tokv", SBV(64))
+			st.trace = append(st.trace, "V:"+v.Name)
+			out = append(out, mk(st, v, 0))
+			return out
+		},
+		"Stream": func(x *Exec, st *State, fr *Frame, args []Value, site ssa.Instruction) []Result {
+			return ret1(st, &SliceV{})
 		},
 		"Trace": func(x *Exec, st *State, fr *Frame, args []Value, site ssa.Instruction) []Result {
 			return ret1(st, nil)
